@@ -673,6 +673,7 @@ def write_replay(prop: str, entry: dict, minimised: dict, min_out: Outcome, n_sh
         "original_record": entry["record"],
         "original_digest": entry["digest"],
         "shrink_executions": n_shrink,
+        "pythonhashseed": os.environ.get("PYTHONHASHSEED", ""),
     }
     p.write_text(json.dumps(doc, indent=1, sort_keys=True, default=repr))
     return p
@@ -680,6 +681,11 @@ def write_replay(prop: str, entry: dict, minimised: dict, min_out: Outcome, n_sh
 
 def replay_file(path: str) -> int:
     doc = json.loads(Path(path).read_text())
+    want_hs = doc.get("pythonhashseed")
+    if want_hs not in (None, "", os.environ.get("PYTHONHASHSEED", "")) and not os.environ.get("ODCSIM_REEXEC"):
+        env = dict(os.environ)
+        env.update(PYTHONHASHSEED=str(want_hs), ODCSIM_REEXEC="1")
+        os.execve(sys.executable, [sys.executable] + sys.argv, env)  # same interpreter, the run's hash seed
     prop = doc["property"]
     engine = load_engine(prop)
     if hasattr(engine, "parent_init"):
